@@ -4198,6 +4198,16 @@ fn propagate_sctp_close_reason(inner: &PeerConnectionInner) {
                 false
             }
         });
+        // The association is gone (peer ABORT / SHUTDOWN, heartbeat timeout, DTLS loss)
+        // and the caller stops driving this connection: do not keep reporting Connected.
+        let _ = inner.peer_state.send_if_modified(|state| {
+            if *state == PeerConnectionState::Connected {
+                *state = PeerConnectionState::Disconnected;
+                true
+            } else {
+                false
+            }
+        });
     }
 }
 
